@@ -1,5 +1,7 @@
 mod c01;
 mod c05;
+mod c09;
+mod c06;
 mod c10;
 mod c11;
 mod c12;
@@ -7,6 +9,7 @@ mod c15;
 mod dump;
 mod progen;
 mod godump;
+mod goparse;
 mod c17;
 mod c19;
 mod goscope;
@@ -28,6 +31,8 @@ fn main() {
     match argv[1].as_str() {
         "c01" => c01::main(&args),
         "c05" => c05::main(&args),
+        "c09" => c09::main(&args),
+        "c06" => c06::main(&args),
         "c10" => c10::main(&args),
         "c12" => c12::main(&args),
         "c15" => c15::main(&args),
